@@ -186,7 +186,7 @@ def find_witness(actual, expected, argspecs, names=None, lane_bits=None, seed=0)
 def interpreted(t):
     """True when every operator in t has an exact evaluation in term.ev"""
     OK = {"const", "arg", "concat", "slice", "rep", "not", "and", "or", "xor", "add", "mul", "sub",
-          "neg", "icmp", "fcmp", "select", "popsum", "fadd", "fsub", "fmul", "fdiv", "call:llvm.sqrt", "call:llvm.fabs", "shlsat", "lshrsat", "ashrsat", "shl", "lshr", "ashr",
+          "neg", "icmp", "fcmp", "select", "popsum", "satus", "satss", "fadd", "fsub", "fmul", "fdiv", "call:llvm.sqrt", "call:llvm.fabs", "shlsat", "lshrsat", "ashrsat", "shl", "lshr", "ashr",
           "fshl", "fshr", "call:llvm.ctpop", "call:llvm.ctlz", "call:llvm.cttz", "call:llvm.bswap",
           "call:llvm.bitreverse", "call:llvm.abs", "call:llvm.umin", "call:llvm.umax",
           "call:llvm.smin", "call:llvm.smax", "call:llvm.uadd.sat", "call:llvm.usub.sat",
@@ -246,6 +246,16 @@ def compare(actual, expected, summary, argspecs, names, lane_bits, pure=True):
             if pure and summary.accesses:
                 return UNDECIDED, "value matches but the function touches memory", None
             return HOLDS, T.show(actual, 4, names), None
+    if actual[1] == expected[1] and expected[0] == "concat":
+        parts = []
+        lo = 0
+        for p in expected[2:]:
+            parts.append(T.slice_(actual, lo, p[1]))
+            lo += p[1]
+        if T.concat(parts) is expected:
+            if pure and summary.accesses:
+                return UNDECIDED, "value matches but the function touches memory", None
+            return HOLDS, T.show(expected, 4, names), None
     if actual[1] == expected[1] and actual[1] <= 64 and lane_bits is None:
         # bit-blast both sides (mask results): bitwise operators distribute
         ba = T.concat([T.slice_(actual, i, 1) for i in range(actual[1])])
